@@ -40,6 +40,15 @@ func (l *evLogger) Write(p []byte) (int, error) {
 	return len(p), nil
 }
 
+// a Logger that additionally implements the optional Reserver / Committer interfaces of emulator.System
+type evLoggerRC struct {
+	evLogger
+	reserved, commits int
+}
+
+func (l *evLoggerRC) Reserve(n int) { l.reserved += n }
+func (l *evLoggerRC) Commit()       { l.commits++ }
+
 type abortRun struct{}
 
 func init() {
@@ -210,8 +219,10 @@ func init() {
 				s.SetPC(uint32(start))
 				quiet = !observe
 				if withLogger {
-					if observe {
+					if observe && i%2 == 0 {
 						s.Logger = lg
+					} else if observe {
+						s.Logger = &evLoggerRC{evLogger: *lg}
 					} else {
 						s.Logger = io.Discard
 					}
